@@ -19,6 +19,7 @@ func init() {
 			ruleAelJoinSplice("C01.ael.join"),
 			ruleHorzJoinRoles("C01.horz-roles"),
 			ruleSplitOnAdvance("C01.join.advance"),
+			ruleSplitAtMaxima("C01.join.maxima"),
 			ruleMergedOwner("C01.merged-owner"),
 			ruleEveryPathEntersRing("C01.all-paths"),
 			ruleJoinMirror("C01.join.mirror"),
